@@ -482,11 +482,11 @@ def op_paragraph_fmt(run):
     elif k == "level_bad":
         p.level = r.choice([-1, 9])
     elif k == "line_spacing":
-        p.line_spacing = r.choice([1.0, 0.5, 2.25, Pt(14), None, 132.0])
+        p.line_spacing = r.choice([1.0, 0.5, 2.25, Pt(14), None, 132.0, -2.0, 133.0, Pt(-3)])
     elif k == "space_before":
-        p.space_before = r.choice([Pt(0), Pt(6), None, Pt(1584)])
+        p.space_before = r.choice([Pt(0), Pt(6), None, Pt(1584), Pt(-1), Pt(1585)])
     else:
-        p.space_after = r.choice([Pt(0), Pt(12.5), None])
+        p.space_after = r.choice([Pt(0), Pt(12.5), None, Pt(-1)])
     return "%s/%s" % (k, where)
 
 
@@ -789,6 +789,10 @@ def op_chart_fmt(run):
             if hasattr(ax, "major_unit"):
                 ax.major_unit = r.choice([None, 1, 2.5])
                 ax.minor_unit = r.choice([None, 0.5])
+            if r.random() < 0.3:  # out-of-domain: documented ValueError, nothing may be left behind
+                bad = r.choice(["major_unit", "minor_unit", "maximum_scale", "minimum_scale"])
+                if hasattr(ax, bad):
+                    setattr(ax, bad, r.choice([0, -1.5]) if "unit" in bad else r.choice([float("inf"), float("nan")]))
             ax.format.line.width = Pt(r.choice([0.5, 2]))
     elif k == "plot":
         pl = ch.plots[0]
@@ -970,6 +974,31 @@ def creator_for(name, rnd):
 def profile_table(name):
     w = PROFILES[name]
     return [(w[k], k, ALL_OPS[k][0], ALL_OPS[k][1] or (Rejected,)) for k in sorted(w)]
+
+
+# ---------------------------------------------------------------------------- PowerPoint-only siblings (C03)
+def enrich_start(run):
+    """Give the opened deck siblings python-pptx itself never writes but PowerPoint does (extension
+    lists at the end of content models), with lxml, before the baselines are taken."""
+    from lxml import etree
+
+    A = "http://schemas.openxmlformats.org/drawingml/2006/main"
+    r = run.rnd
+    if r.random() < 0.5:
+        return
+    run.acc.classes["start-enriched-with-extLst"] = run.acc.classes.get("start-enriched-with-extLst", 0) + 1
+    for part in list(run.prs.part.package.iter_parts()):
+        root = getattr(part, "_element", None)
+        if root is None or root.tag not in ("{%s}sld" % P, "{%s}sldLayout" % P):
+            continue
+        for tree in xp(root, "//p:spTree | //p:grpSp"):
+            if tree.find("{%s}extLst" % P) is None and r.random() < 0.7:
+                e = etree.SubElement(etree.SubElement(tree, "{%s}extLst" % P), "{%s}ext" % P)
+                e.set("uri", "{verif-spTree}")
+        for c in xp(root, "//p:cNvPr | //p:cNvSpPr | //p:cNvCxnSpPr | //p:cNvPicPr"):
+            if c.find("{%s}extLst" % A) is None and r.random() < 0.4:
+                e = etree.SubElement(etree.SubElement(c, "{%s}extLst" % A), "{%s}ext" % A)
+                e.set("uri", "{verif}")
 
 
 # ---------------------------------------------------------------------------- adversarial id states (C06)
